@@ -631,7 +631,10 @@ fn uncontrolled(report: &mut Report, tier: Tier) {
                     expect.insert(i as u32);
                 }
                 let opts = BuildOpts { n_trees: Some(n_trees), split_after: Some(2), memory: None, seed: round as u64, cancel_at: None };
-                let (o, _) = exec(scratch.db, &mut wtxn, &mut types, &Action::Build { index: 0, opts: opts.clone() });
+                // every second tree count: the first build has two more trees, so that the incremental build
+                // also removes trees in the round in which it asks for new node ids
+                let first = BuildOpts { n_trees: Some(n_trees + if n_trees % 2 == 0 { 2 } else { 0 }), ..opts.clone() };
+                let (o, _) = exec(scratch.db, &mut wtxn, &mut types, &Action::Build { index: 0, opts: first });
                 if !o.is_ok() {
                     return Err(("N/build-failed".into(), o.describe()));
                 }
